@@ -67,6 +67,17 @@ def programs(tier):
                     continue
                 seen.add(key)
                 progs.append(Program(text, srcs, ordered=ordered and node.ordered, family="F04", note="/".join(node.ops) + "/" + tag, env_globals={"dx": dx}))
+        # an array source whose column names are not in lexicographic order (its projection slices the data by position)
+        ACOLS = {"d": "i", "a": "i", "c": "i", "b": "i"}
+        A = root("A", ACOLS, nparts)
+        srcA = Src("A", nrows, ACOLS, nparts, how="array")
+        for node in [A] + [n for n in chains(A, 1, ops=["filter", "assign", "arith", "elem", "rename"]) if n.kind == "frame"]:
+            if any(t in node.text for t in ("fillna", "isna", "dropna", "astype")):
+                continue
+            for text, tag, ordered in _selections(node):
+                if tag.startswith("key-") and tag not in ("key-groupby",):
+                    continue
+                progs.append(Program(text, [srcA], ordered=ordered and node.ordered, family="F04", note="array/" + "/".join(node.ops) + "/" + tag, env_globals={"dx": dx}))
         # diamonds: one intermediate, consumers with different column needs
         for mid in [L] + [m for nme in ("filter", "assign", "elem", "rename") for m in (FRAME_OPS[nme](L) or [])][:10]:
             nm = mid.names
